@@ -1,0 +1,12 @@
+//go:build verif
+
+// Contracts for package config, checked by /verif/govc (see /verif/DESIGN.md, C12).
+// This file contains no code: only structured //@ comments keyed by function.
+
+package config
+
+// The ID every component uses for a log is the ID of its origin.
+//@ func NewLog
+//@   returns (r, err)
+//@   ensures[C12.new] err == nil ==> r.ID == ID(origin) && r.Origin == origin && r.URL == url && r.Verifier == verifierFor(pk) && verifierOK(pk)
+//@   ensures[C12.new] err != nil ==> !verifierOK(pk)
